@@ -15,6 +15,9 @@ mod eqrel_bin__ser;
 mod eqrel_bin__par;
 mod eqrel_bin__pari;
 mod eqrel_tern__ser;
+mod eqrel_only010__ser;
+mod eqrel_only001__ser;
+mod eqrel_only011__ser;
 mod eqrel_plain__ser;
 mod eqrel_plain__par;
 mod eqrel_plain__pari;
@@ -28,6 +31,9 @@ fn lookup(name: &str) -> fn() -> Box<dyn Driven> {
       "eqrel_bin__par" => eqrel_bin__par::make,
       "eqrel_bin__pari" => eqrel_bin__pari::make,
       "eqrel_tern__ser" => eqrel_tern__ser::make,
+      "eqrel_only010__ser" => eqrel_only010__ser::make,
+      "eqrel_only001__ser" => eqrel_only001__ser::make,
+      "eqrel_only011__ser" => eqrel_only011__ser::make,
       "eqrel_plain__ser" => eqrel_plain__ser::make,
       "eqrel_plain__par" => eqrel_plain__par::make,
       "eqrel_plain__pari" => eqrel_plain__pari::make,
